@@ -3,6 +3,7 @@
 package main
 
 import (
+	"unicode/utf8"
 	"fmt"
 	"sort"
 	"strings"
@@ -96,6 +97,9 @@ func seqStep(state, input, output interface{}) (bool, interface{}) {
 		}
 		return true, encState(st)
 	case "remove":
+		if !out.OK {
+			return true, state // refused by the HTTP API (session expired): no effect
+		}
 		delete(st, in.User)
 		return true, encState(st)
 	case "set-admin":
@@ -146,7 +150,7 @@ func callToOp(c *Call) porcupine.Operation {
 		out.List = sb.String()
 	}
 	if c.Kind == "remove" {
-		out.OK = true
+		out.OK = c.Via != "api" || c.Status == 200
 	}
 	return porcupine.Operation{ClientId: c.Client, Input: in, Call: int64(2 * c.Invoke), Output: out, Return: int64(2*c.Return + 1)}
 }
@@ -176,6 +180,20 @@ func propC11(r *Run) {
 			w.startSasl(a)
 			w.startLDAP(a)
 			vias = []string{"agent", "sasl", "ldap", "basic", "api"}
+		}
+		// an administrator session for management requests through the web API (obtained before
+		// the concurrent phase; it is part of the history like every other call)
+		adminToken := ""
+		if len(vias) > 1 {
+			for _, u := range users {
+				if model[u].Admin && model[u].PW != "" && utf8.ValidString(model[u].PW) {
+					l := &Call{Kind: "authenticate", Via: "api", Agent: a.idx, User: u, PW: model[u].PW}
+					w.addClient([]*Call{l})
+					w.settle(nil)
+					adminToken = l.Token
+					break
+				}
+			}
 		}
 		nclients := 2 + r.Choose("nclients", 5)
 		pwn := 0
@@ -216,6 +234,9 @@ func propC11(r *Run) {
 				case 9:
 					c.Kind = "remove"
 					c.User = []string{"newbie", u}[r.Choose("rm-name", 2)]
+					if adminToken != "" && r.Choose("rm-via-api", 2) == 1 {
+						c.Via, c.Session = "api", adminToken // an administrator removes the user through the web API
+					}
 				case 10:
 					c.Kind, c.Admin = "set-admin", r.Choose("admin", 2) == 1
 				case 11:
